@@ -225,7 +225,8 @@ func acts(log []logEntry) []string {
 		case lkStopT:
 			out = append(out, "AExp")
 		case lkReset:
-			out = append(out, "AOdd")
+			// Reset of a running timer without Stop: the quiet window re-starts all the same
+			out = append(out, "AExt "+hx.CoqZ(e.D))
 		case lkTop, lkDrainC:
 		}
 	}
@@ -769,8 +770,8 @@ func c09Gen(ctx *core.Ctx) {
 		adds, spin int
 		reps       int
 	}
-	shapes := []sh{{"gate", 1, 300, 400}, {"gate", 3, 2000, 300}, {"seq", 3, 0, 1500}, {"seq", 1, 200, 500},
-		{"conc", 3, 400, 500}, {"conc", 2, 4000, 300}, {"cancel", 3, 500, 400}}
+	shapes := []sh{{"gate", 1, 3000, 1500}, {"conc", 2, 4000, 1500}, {"seq", 3, 0, 4000}, {"gate", 3, 2000, 1000},
+		{"seq", 1, 200, 1500}, {"conc", 3, 400, 1500}, {"cancel", 3, 500, 1500}}
 	mult := 1
 	if ctx.Thorough {
 		mult = 40
